@@ -30,6 +30,35 @@ def _is_listener_expr(e):
     return C04.is_listener_id(e)
 
 
+def listener_id_roots(e, depth=0, seen=None):
+    """where a listener id comes from: the roots of the iteration that yields it.  Returns a list of 'live' (the streams manager's used_streams()) / 'other:<what>'.
+    A fan-out that, for some configuration, walks something else than the live list (`if MAX_STREAMS == 1 { &[0] } else { used_streams() }`) has an 'other' root."""
+    seen = seen if seen is not None else set()
+    if depth > 40 or not isinstance(e, tuple): return ["other:?"]
+    k = e[0]
+    if k in ("cast",): return listener_id_roots(e[2], depth + 1, seen)
+    if k == "deref": return listener_id_roots(e[1], depth + 1, seen) if isinstance(e[1], tuple) else ["other:deref"]
+    if k == "ref?": return listener_id_roots(e[2], depth + 1, seen) if len(e) > 2 else ["other:ref"]
+    if k in ("field", "variant"): return listener_id_roots(e[2], depth + 1, seen)
+    if k == "pair": return listener_id_roots(e[1], depth + 1, seen)
+    if k == "phi":
+        if e[1] in seen: return []
+        seen = seen | {e[1]}
+        out = []
+        for a in (e[3] if len(e) > 3 else ()):
+            if strip_casts(a)[:2] == ("phi", e[1]): continue
+            out += listener_id_roots(a, depth + 1, seen)
+        return out or ["other:phi"]
+    if k == "call":
+        nm = e[1].split("::")[-1]
+        if nm == "used_streams": return ["live"]
+        if nm in ("next", "into_iter", "iter", "copied", "cloned", "enumerate", "take", "take_while", "skip", "by_ref", "as_slice", "as_ref", "deref", "get_unchecked", "get", "index", "unwrap", "unwrap_unchecked") and e[2]:
+            return listener_id_roots(e[2][0], depth + 1, seen)
+        return ["other:" + nm]
+    if k == "cycle": return []
+    return ["other:" + str(k)]
+
+
 def check(ctx):
     fx = ctx.fx
     C01 = importlib.import_module("props.C01")
@@ -97,6 +126,15 @@ def check(ctx):
             q = dg.expr(c["args"][0])
             okq = field in str(q) and _is_listener_expr(q)
             ctx.ob("R03.3", f"{k}|writes-the-listener-s-own-queue", okq, body.loc(b), f"publishes into `{show(q)[:90]}`; required: {field}[<listener id read from the live list>]")
+            # ... and from nothing else, for every configuration: the ids the fan-out walks are the live list's on every path (a special-cased list for
+            # MAX_STREAMS == 1 -- "the only possible listener is #0" -- feeds queue 0 while nobody listens; the id's next owner yields those events)
+            qs = strip_casts(q)
+            idx = qs[2][1] if qs[0] == "call" and qs[1].split("::")[-1] in ("get_unchecked", "get_unchecked_mut", "index") and len(qs[2]) == 2 else None
+            if idx is not None:
+                roots = listener_id_roots(idx)
+                bad = sorted({r for r in roots if r != "live"})
+                ctx.ob("R03.3", f"{k}|walks-only-the-live-list", "live" in roots and not bad, body.loc(b),
+                       "every listener id the fan-out publishes for is read from used_streams()" if not bad else f"on some path the ids come from {bad}, not from the live-listener list")
         # consumer side
         kc = f"{path} as {CONS}::consume"
         cb = Body(fx.fn(kc)); cd = D.Dag(cb)
